@@ -104,7 +104,7 @@ type Program struct {
 	renameCache          map[*FuncInfo]map[string]string
 	sigRenameCache       map[*FuncInfo]map[string]string
 	counterCache         map[*FuncInfo]map[string]int
-	Renamed              []string // functions under contract found under a new name (rebindRenamedFuncs)
+	Renamed              []string                // functions under contract found under a new name (rebindRenamedFuncs)
 	repair               map[string]*repairState // functions being re-verified with re-bound loop invariants (repair.go)
 }
 
@@ -163,7 +163,7 @@ type Unit struct {
 	entryPC       []Term
 	usesLocks     bool
 	knownLits     map[string]*litInfo
-	specLoopOrd   int // 1 + ordinal of the loop whose clauses are being evaluated (0: none)
+	specLoopOrd   int        // 1 + ordinal of the loop whose clauses are being evaluated (0: none)
 	heldLits      []*litInfo // literals handed to callees that only store them ("opt holds-callbacks")
 	methodConsts  map[string]bool
 	recvActualTy  types.Type
@@ -1967,7 +1967,6 @@ func nodeString(fset *token.FileSet, n ast.Node) string {
 	return b.String()
 }
 
-
 func assignsVar(info *types.Info, body ast.Node, v types.Object) bool {
 	found := false
 	ast.Inspect(body, func(n ast.Node) bool {
@@ -1991,7 +1990,6 @@ func assignsVar(info *types.Info, body ast.Node, v types.Object) bool {
 	})
 	return found
 }
-
 
 // is the variable assigned (or its address taken) inside any function literal of the function being executed?  (such a
 // literal could run during a loop body through a call)
